@@ -682,8 +682,13 @@ def rule_builders(ctx):
                 continue
             if not b.local_ty(1).split("::")[-1].startswith(("PortFilter", "IpFilter", "SubnetFilter", "FilterConfig")):
                 continue
+            fallible = False
             if not b.local_ty(0).split("::")[-1].startswith(("PortFilter", "IpFilter", "SubnetFilter", "FilterConfig")):
-                continue          # fallible builders (Result<Self, _>) return early on a parse error: not this rule
+                # fallible builders (Result<Self, _>) return early on a parse error: only their Ok returns are judged
+                if not ((b.local_ty(0) or "").startswith(("std::result::Result<", "core::result::Result<")) and any(
+                        k_ in b.local_ty(0) for k_ in ("PortFilter", "IpFilter", "SubnetFilter", "FilterConfig"))):
+                    continue
+                fallible = True
             stores = set()
             for i, j, s_ in b.iter_stmts():
                 if s_["k"] == "assign" and s_["p"]["l"] == 1 and s_["p"]["pr"]:
@@ -694,8 +699,22 @@ def rule_builders(ctx):
             if not stores:
                 continue
             nb += 1
-            rets = [rb for (rb, j, term, _c) in TB.return_sites(b, P)]
-            bare = [rb for rb in rets if not any(C.dominates(b, sb, rb) for sb in stores)]
+            rets = [rb for (rb, j, term, _c) in TB.return_sites(b, P)
+                    if not fallible or (T.strip(term)[0] == "agg" and T.strip(term)[3] == "Ok")]
+            # a return is covered when no path from the entry reaches it without passing a store (the store may sit in either arm of a
+            # match on the parsed value)
+            def _reach_without(target):
+                seen_, todo_ = set(), [0]
+                while todo_:
+                    x_ = todo_.pop()
+                    if x_ in seen_ or x_ in stores:
+                        continue
+                    seen_.add(x_)
+                    if x_ == target:
+                        return True
+                    todo_.extend(b.succs(x_))
+                return False
+            bare = [rb for rb in rets if rb not in stores and _reach_without(rb)]
             ctx.check(not bare, "R7", "%s:%s::%s:always-stores" % (crate, (b.impl_self or "").split("::")[-1], b.name), "every return is preceded by the store",
                       "%s::%s can return without registering its argument: a configured constraint that the builder considers empty / redundant is dropped and the "
                       "filter admits what it was configured to refuse" % ((b.impl_self or "").split("::")[-1], b.name), ctx.loc(b, bare[0]) if bare else None)
@@ -715,6 +734,15 @@ def rule_builders(ctx):
                     v = T.const_value(s["r"]["o"]["k"])[1]
                     if names and isinstance(v, bool):
                         got[names[-1]] = v
+                # struct-update spelling: `Self { check_source: true, check_destination: false, ..self }` - the constant fields of the
+                # rebuilt value (the others are moved over from self)
+                if s["k"] == "assign" and s["r"]["k"] == "agg" and s["r"].get("ak") == "adt" and s["r"].get("fields") and \
+                        (s["r"].get("path") or "").split("::")[-1] == (b.impl_self or "").split("::")[-1].split("<")[0]:
+                    for fn_, o_ in zip(s["r"]["fields"], s["r"]["ops"]):
+                        if "k" in o_:
+                            v = T.const_value(o_["k"])[1]
+                            if isinstance(v, bool):
+                                got[fn_] = v
             m += 1
             ty = (b.impl_self or "").split("::")[-1]
             ctx.check(got == want[b.name], "R7", "%s:%s::%s:flags" % (crate, ty, b.name), "%s sets %s" % (b.name, want[b.name]),
